@@ -396,7 +396,11 @@ class Check:
             "coverage": coverage, "assumptions": self.assumptions, "wall_s": round(wall, 2),
             "violations": len(self.violations),
         }
-        with open(os.path.join(VERIF, "evidence", f"{self.prop}.json"), "w") as handle:
+        # a run against a scratch worktree (VERIF_REPO, used for seeded changes) does not describe /repo: its evidence
+        # goes next to the replays, evidence/<id>.json always describes the last run on /repo itself
+        ev_dir = "evidence" if REPO == "/repo" else os.path.join("replays", "scratch_evidence")
+        os.makedirs(os.path.join(VERIF, ev_dir), exist_ok=True)
+        with open(os.path.join(VERIF, ev_dir, f"{self.prop}.json"), "w") as handle:
             json.dump(evidence, handle, indent=1, default=str)
         for line in self.known_lines:
             print(f"KNOWN-FINDING: property={self.prop} {line}")
